@@ -305,6 +305,8 @@ def check_model(text, rng, want=6, tier="quick", work=None):
                 if label is None and root in ref.assigns and F.folded_constant_out_of_range(ode, ref, [root]):
                     label = "C02-folded-constant-out-of-float-range"
                 v = {"kind": "value", "subkind": fname, "detail": d, "finding": label}
+                if fname not in ("init_state_values", "init_parameter_values"):
+                    v["_point"] = dict(pts[meta[k][1]][0])
                 if len(out["violations"]) < 8:
                     out["violations"].append(v)
         if out["violations"]:
@@ -373,7 +375,9 @@ def run_case(spec, ctx):
                 vref = RefModel.from_text(v.get("text", text))
             except Exception:
                 vref = None
-            F.classify(ID, v, text=v.get("text", text), features=feats, code=out.get("code"), ref=vref)
+            vode = C.load_text(v.get("text", text))
+            F.classify(ID, v, text=v.get("text", text), features=feats, code=out.get("code"), ref=vref, ode=vode.value if vode.ok else None)
+            v.pop("_point", None)
     out["hash"] = models.structural_hash(text)
     out["model_text"] = text
     out["counters"]["constructs"] = {**{"f:" + k: v for k, v in feats["funcs"].items()}, **{"op:" + k: v for k, v in feats["ops"].items()}, **feats["bool_arity"]}
